@@ -60,6 +60,15 @@ CLAIMS = {
    note='Trusted: Coq kernel/vm_compute; py2v/gen_traverse (also reads ASDL kinds from CPython ast docstrings); hand model Walk.v tied by correspondence; Module.type_ignores is '
         'excluded from the compatibility check (documented deviation). One genuine defect found and fixed (root filter on leave/both). No axioms.',
    design='DESIGN.md section 4 C14'),
+ 'C09': dict(
+   technique='Coq proof by complete finite enumeration: translated precedence tables + decision function adequate for a hand grammar-level spec; spec validated against CPython exhaustively; real-put oracle over all slots x child kinds x layouts',
+   text='Proved (closed): over the complete finite domain (3489 child/slot triples x all 16 flag settings) the decision function and tables TRANSLATED from astutil.py require '
+        'parentheses wherever the hand-written Python-grammar requirement says a bare child would not parse back into the slot (C09_table_adequate), the function is total there, '
+        'and associativity is encoded correctly. Partial: no Gallina parser/round-trip proof was built - the grammar spec is instead validated on every run against ast.parse on '
+        'its whole finite domain (OH2), and the complete chain is cross-checked through real replaces (every slot x child kind x bare/parenthesised/multi-line/comment layout x '
+        'source/FST/AST form) plus put-back of children that need their parentheses. Line-structure enclosure and atom analysis are covered only by that oracle.',
+   note='Trusted: Coq kernel/vm_compute; py2v/gen_prec; hand spec PyGrammar.v (validated vs CPython each run); canonical examples in py/lib/slots.py; CPython ast. No axioms.',
+   design='DESIGN.md section 4 C09'),
 }
 
 checks = []
